@@ -72,6 +72,15 @@ class C18(Check):
         yield ("unknown", "no_such_parameter", "5", "cli_us")
         yield ("unknown", "no_such_parameter", "5", "options")
         yield ("cli_malformed", "phase")          # --param without '='
+        # the same parameter in the options section of the profile file AND given by the user: the user's value counts
+        for k, dv in sorted(ps.items()):
+            if k == "cn_solution":
+                continue
+            sp = [(g, w) for g, w in spellings(dv) if w != "REJECT"]
+            if len(sp) >= 2:
+                for (g1, w1), (g2, w2) in ((sp[0], sp[-1]), (sp[-1], sp[0])):
+                    if w1 != w2:
+                        yield ("override", k, g1, g2)
         # write -> load histories
         names = sorted(k for k in ps if k != "cn_solution")
         for k in names:
@@ -185,6 +194,23 @@ class C18(Check):
             except AldyException as ex:
                 v.append(("param/unknown-name-rejected", f"{route}: {ex}"))
             return Outcome(v, key=("unknown", route), nontrivial=True)
+        if kind == "override":
+            import os, yaml
+            from aldy.common import GRange
+            from .. import worlds
+            _, k, in_file, given = st
+            gene = worlds.gene_of(("toy",), "hg19")
+            regions = {(gene.name, r, gi): rng for gi, gr in enumerate(gene.regions) for r, rng in gr.items()}
+            data = Profile.get_sam_profile_data("<illumina>", regions=regions, cn_region=GRange("1", 1000, 2000), genome="hg19")
+            data["options"] = {k: in_file}
+            path = os.path.join(worlds.tmpdir(), f"ov_{os.getpid()}.yml")
+            with open(path, "w") as f:
+                yaml.safe_dump(data, f)
+            want = dict((repr(g), w) for g, w in spellings(ps[k]))[repr(given)]
+            p = Profile.load(gene, path, None, **{k: given})
+            if getattr(p, k) != want:
+                v.append(("param/file-option-beats-user-value", f"{k}: options section says {in_file!r}, user gave {given!r}, result {getattr(p, k)!r}"))
+            return Outcome(v, key=("override", k, repr(getattr(p, k))), nontrivial=True, note={"param": k, "file": repr(in_file), "given": repr(given)})
         if kind == "cli_malformed":
             try:
                 self._apply("cli_raw", {"raw": [st[1]]})
